@@ -325,7 +325,7 @@ def main(tier, seed):
     dataclass_suite(res, tier, seed)
     return core.finish(res, "make -C coq Props/C12.vo && coqc (Print Assumptions audit)", "see suites", search=None,
                        level_note="partial: theorems are about Model/Conv.v (builtin targets; text-to-number via the modelled Decimal grammar); "
-                                  "date/time/uuid/enum/complex targets, bytes decoding errors, tuple excess and unknown keys under the flags are "
+                                  "date/time/uuid/enum/complex targets and bytes decoding errors under the flags are "
                                   "judged by the flag oracle and the correspondence suites only")
 
 
